@@ -72,6 +72,7 @@ func (r *rec) roundtrip(name, cls string, val reflect.Value, tag string, violate
 	var b []byte
 	var err error
 	pn := ev.Catch(func() { b, err = aper.MarshalWithParams(val.Interface(), tag) })
+	ev.Hold("octets returned by aper.MarshalWithParams", b)
 	e := ev.M{"ev": "Enc", "id": r.id, "name": name, "cls": cls, "tree": tree, "bytes": ev.Ints(b), "err": err != nil || pn != "",
 		"panic": pn != "", "violated": violated}
 	r.id++
@@ -145,6 +146,7 @@ func pduCases(r *rec, g *te.Gen, perType int, badEvery int, rot int) {
 				var b []byte
 				var err error
 				pn := ev.Catch(func() { b, err = ngap.Encoder(pdu) })
+				ev.Hold("octets returned by ngap.Encoder", b)
 				e := ev.M{"ev": "Enc", "id": r.id, "name": name, "cls": fmt.Sprint("pdu", top.present), "tree": tree, "bytes": ev.Ints(b),
 					"err": err != nil || pn != "", "panic": pn != "", "violated": g.Violated}
 				r.id++
